@@ -1,7 +1,8 @@
 /- C01 — PROPERTY THEOREMS (translation ties): the Lean definitions regenerated from the current Python
    source of `_unitary_tools._permute` / `_permutation_making_qubits_adjacent` equal the model. -/
-import OQ.Generated.Translated
+import OQ.Generated.TranslatedC01
 import OQ.Model.Lift
+import OQ.Lemmas.Translated
 import Mathlib.Tactic.Linarith
 namespace OQ.C01
 open OQ.Generated OQ.Lift
@@ -40,4 +41,27 @@ theorem translated_permMakingAdjacent_eq (qs : List Nat) (n : Nat) :
   intro i _
   simp only [Function.comp]
   rw [contains_map_ofNat]
+
+open OQ.Py OQ.Tr in
+/-- TRANSLATION TIE: `_basis_bitstring(i, n)` (= `bin(i)[2:].zfill(n)` digit by digit) regenerated from the current
+    Python source is the model's `basisBitstring` — bit `q` of `i`, qubit 0 most significant — for every width `n ≥ 1` and
+    every `i < 2^n`. -/
+theorem translated_basis_bitstring_eq (i n : Nat) (hn : 1 ≤ n) (hi : i < 2 ^ n) :
+    Translated.basis_bitstring (i : Int) (n : Int) = (OQ.Lift.basisBitstring i n).map Int.ofNat := by
+  unfold Translated.basis_bitstring
+  rw [sliceFrom_bin]
+  unfold binDigits
+  rw [zfill_digits _ (binDigitsFuel_ne_nil _ _)
+    (fun d hd => Nat.lt_trans (binDigitsFuel_lt_two _ _ d hd) (by decide))]
+  rw [map_charDigit_digitChar]
+  · rw [binDigitsFuel_eq, ← bits_eq_basisBitstring, ← OQ.C04.formatBin_eq_bits n i hn hi]
+    rfl
+  · intro d hd
+    simp only [List.mem_append, List.mem_replicate] at hd
+    rcases hd with h | h
+    · omega
+    · exact Nat.lt_trans (binDigitsFuel_lt_two _ _ d h) (by decide)
+
+/-- width 0: Python gives `[0]` (`zfill` never truncates); `_permute` with the empty order discards it -/
+theorem translated_basis_bitstring_zero : Translated.basis_bitstring 0 0 = [0] := by decide
 end OQ.C01
